@@ -464,6 +464,70 @@ static void p_graph(uint64_t) {
   quiesce();
 }
 
+// a node throws inside a parallel executor's wave; the same executor object is then used for another
+// graph after the first one is gone: nothing of the aborted evaluation may be carried over
+template <class Exec, class TS>
+static void graphThrowThenReuse(dispenso::ThreadPool& pool, uint64_t seed) {
+  Exec ex;
+  for (int round = 0; round < 2; ++round) {
+    {
+      dispenso::Graph g;
+      LT pa(1), pb(2), pc(3);
+      std::atomic<int> ran{0};
+      std::vector<dispenso::Node*> as, cs;
+      int chains = 2 + (int)((seed + (uint64_t)round) % 6);
+      for (int i = 0; i < chains; ++i) {
+        auto& a = g.addNode([pa, &ran]() { (void)pa.use(); ran.fetch_add(1); });
+        auto& c = g.addNode([pc]() { (void)pc.use(); });
+        c.dependsOn(a);
+        as.push_back(&a);
+        cs.push_back(&c);
+      }
+      auto& b = g.addNode([pb, &ran, chains]() {
+        (void)pb.use();
+        // let the other sources of the wave finish first, so that their dependents are already collected
+        for (int spin = 0; spin < 2000000 && ran.load() < chains; ++spin) {
+        }
+        throw Boom();
+      });
+      auto& d = g.addNode([pc]() { (void)pc.use(); });
+      d.dependsOn(b);
+      auto& sink = g.addNode([pa]() { (void)pa.use(); });
+      for (auto* c : cs)
+        sink.dependsOn(*c);
+      sink.dependsOn(d);
+      TS ts(pool);
+      try {
+        ex(ts, g);
+      } catch (const Boom&) {
+      }
+      try {
+        ts.wait();
+      } catch (const Boom&) {
+      }
+    } // the graph and its payload copies are gone
+    quiesce();
+    {
+      dispenso::Graph g2;
+      LT q(9);
+      auto& n0 = g2.addNode([q]() { (void)q.use(); });
+      auto& n1 = g2.addNode([q]() { (void)q.use(); });
+      n1.dependsOn(n0);
+      TS ts(pool);
+      ex(ts, g2);
+    }
+    quiesce();
+  }
+}
+static void p_graph_throw(uint64_t seed) {
+  {
+    dispenso::ThreadPool pool(3);
+    graphThrowThenReuse<dispenso::ParallelForExecutor, dispenso::TaskSet>(pool, seed);
+    graphThrowThenReuse<dispenso::ConcurrentTaskSetExecutor, dispenso::ConcurrentTaskSet>(pool, seed);
+  }
+  quiesce();
+}
+
 // more subgraphs than the per-type allocator cache holds (kMaxCache = 8): every node allocator is either
 // cached or freed when its subgraph goes away; repeated, with both node types, partially rebuilt
 template <class G>
@@ -594,6 +658,7 @@ int main(int argc, char** argv) {
       {"loops_error", p_loops_error},
       {"graph", p_graph},
       {"graph_many", p_graph_many},
+      {"graph_throw", p_graph_throw},
       {"misc", p_misc},
       {"timed", p_timed},
   };
